@@ -1,4 +1,5 @@
 """C02 — every factory-built node reports exactly the operands it was built from."""
+import re
 from common import *
 import fsweep
 
@@ -55,6 +56,37 @@ def check(res):
                         res.violation(k, "model of the code (Schema.store_of from GenFactory) and implementation disagree on slot %s of %s: %s vs %s" %
                                       (s, e["key"], want, d.get(s)),
                                       {"factory": e["key"], "arguments": r["args"], "slot": s, "model": want, "impl": d.get(s)}, no_input=True)
+    # the two documented normal forms, which the statement allows as the only differences
+    exe = build_driver("fsweep_driver", "asan", parts=12)
+    nlines = ["N:qualified %d %d %d" % (a, b, t) for a in range(7) for b in range(7) for t in (0, 5)] + \
+             ["N:transfer %d %d %d" % (a, b, c) for a in range(3) for b in (1, 4) for c in (2, 7)]
+    pn = run([exe], input="\n".join(nlines) + "\n", env=SAN_ENV, timeout=600)
+    nform = 0
+    for l in pn.stdout.splitlines():
+        m = re.match(r"F (N:\w+) args=(\S+) :: (.*)$", l)
+        if not m:
+            continue
+        nform += 1
+        a = m.group(2).split(";")
+        d = fsweep.parse_dump(m.group(3))
+        if m.group(1) == "N:qualified":
+            want = str(int(a[0]) | int(a[1]))
+            if d.get("qualifiers") != want or d.get("main_variant") != a[2] or d.get("same") != "1":
+                k = "normal-form:qualified"
+                if k not in keys:
+                    keys.add(k)
+                    res.violation(k, "get_qualified(%s, get_qualified(%s, %s)) reports qualifiers %s over %s (same node as the merged request: %s); documented: qualifiers %s over %s" %
+                                  (a[1], a[0], a[2], d.get("qualifiers"), d.get("main_variant"), d.get("same"), want, a[2]),
+                                  {"call": l[:300], "rerun": "echo 'N:qualified <q1-1> <q2-1> <type index>' | build/<hash>/asan/fsweep_driver"})
+        else:
+            if d.get("same") != "1" or d.get("transfer") != "$natural" or d.get("source") != a[0] or d.get("target") != a[1] or d.get("throws") != a[2]:
+                k = "normal-form:transfer"
+                if k not in keys:
+                    keys.add(k)
+                    res.violation(k, "a function type requested with the natural C++ transfer spelled out is not the node of the same request without it: %s" % m.group(3)[:200],
+                                  {"call": l[:300]})
+    if pn.returncode != 0:
+        res.violation("crash:normal-forms", "normal-form requests aborted", {"stderr": pn.stderr[-2000:]})
     # every result re-read after all the other calls: what a node exposes does not depend on what was built after it
     changed, crashed, err = fsweep.reobserve(calls)
     for kind, fkey, fargs, before, after in changed[:6]:
@@ -82,6 +114,6 @@ def check(res):
         "traces_validated_against_impl": sum(1 for r in recs if r and "dump" in r),
         "input_distribution": {"factories": len(plan), "calls_per_factory_class": per_class, "operand_sorts": fsweep.sort_histogram(calls),
                                "accessor_values_compared": compared, "of_which_reached_by_static_model": modelled,
-                               "constructor_slots_compared": slots,
+                               "constructor_slots_compared": slots, "normal_form_requests": nform,
                                "not_swept": ["%s::%s (%s)" % tuple(s) for s in P["skipped"]]},
     })
